@@ -58,6 +58,14 @@ def m_fread(I, st, fr, n, this, args, an):
         r = ov(I, st, fr, n, dst, sz, cnt, f, root)
         if r is not None:
             return r
+    lr_ = st.comps.get(('lastread', root))
+    if lr_ is not None and lr_[0] in st.sym and is_int(lr_[1]) and compare('<', sym(lr_[0]), lr_[1], st.sym) is True:
+        # the previous read of this stream came up short and nothing repositioned it: the stream is at its end (or in error),
+        # and stays there - every further read delivers nothing
+        # (no event: a read that delivers nothing has no effect a listener could log, and a loop that only repeats it must be
+        # recognisable as coming back to the same state)
+        st.comps[('feof', root)] = C(1)
+        return [(st, C(0))]
     rc_ = rng(cnt, st.sym)
     if rc_:
         # the number of items read is one fixed unknown of this call: a named symbol, so that a later feof() test (set exactly
@@ -114,7 +122,11 @@ def m_fwrite(I, st, fr, n, this, args, an):
     pos = fpos(st, root)
     I.emit('fwrite', st, node=n, root=root, pos=pos, size=total, src=src, fval=f)
     set_fpos(st, root, binop('+', pos, total, st.sym) if pos != TOP and total != TOP else TOP)
-    # ISO C: the number of elements written; zero when size or nmemb is zero (write errors are not modelled)
+    # ISO C: the number of elements written; zero when size or nmemb is zero.  The count returned is the requested one (a
+    # short write is not modelled), but the stream's error indicator may be set from here on: see m_ferror
+    if not hasattr(I, 'written_roots'):
+        I.written_roots = set()
+    I.written_roots.add(root)
     out = []
     zs = compare('==', sz, C(0), st.sym) if is_int(sz) and sz != TOP else False
     zc = compare('==', cnt, C(0), st.sym) if is_int(cnt) and cnt != TOP else False
@@ -139,6 +151,7 @@ def m_fseek(I, st, fr, n, this, args, an):
     else:
         set_fpos(st, root, TOP)
     st.comps[('feof', root)] = C(0)
+    st.comps.pop(('lastread', root), None)
     I.emit('fseek', st, node=n, root=root, off=off, whence=wh)
     return [(st, C(0))]
 
@@ -245,6 +258,59 @@ def m_fdopen(I, st, fr, n, this, args, an):
 
 def m_close(I, st, fr, n, this, args, an):
     return [(st, C(0))]
+
+
+def _monotone(fn, lo_dom=None):
+    """Model of a monotonically increasing real function on floating intervals; lo_dom = (x, f(x)) at the lower end of the domain."""
+    import math
+
+    def m(I, st, fr, n, this, args, an):
+        v = args[0] if args else None
+        if v is None or v[0] != 'f':
+            return [(st, ('opaque', 'float'))]
+        inf = float('inf')
+
+        def ap(x):
+            try:
+                if lo_dom is not None and x <= lo_dom[0]:
+                    return lo_dom[1] if x == lo_dom[0] else float('nan')
+                if x == inf:
+                    return inf
+                if x == -inf:
+                    return lo_dom[1] if lo_dom is not None else -inf
+                return fn(x)
+            except (ValueError, OverflowError):
+                return float('nan')
+        a, b = ap(v[1]), ap(v[2])
+        if a != a or b != b:
+            return [(st, ('f', -inf, inf))]
+        return [(st, ('f', a, b))]
+    return m
+
+
+def _m_math():
+    import math
+    ninf = float('-inf')
+    return {'log2': _monotone(math.log2, (0.0, ninf)), 'log': _monotone(math.log, (0.0, ninf)), 'log10': _monotone(math.log10, (0.0, ninf)),
+            'sqrt': _monotone(math.sqrt, (0.0, 0.0)), 'floor': _monotone(math.floor), 'ceil': _monotone(math.ceil),
+            'std::log2': _monotone(math.log2, (0.0, ninf)), 'std::log': _monotone(math.log, (0.0, ninf)), 'std::log10': _monotone(math.log10, (0.0, ninf)),
+            'std::sqrt': _monotone(math.sqrt, (0.0, 0.0)), 'std::floor': _monotone(math.floor), 'std::ceil': _monotone(math.ceil)}
+
+
+def m_fileno(I, st, fr, n, this, args, an):
+    # the descriptor behind a stream: a value that only remembers which stream it belongs to
+    root = fileroot(args[0]) if args else None
+    return [(st, ('fdof', root))]
+
+
+def m_ftruncate(I, st, fr, n, this, args, an):
+    # sets the length of the file behind the descriptor: an effect on the file that listeners must see (it may fail)
+    fd, ln = args[0], args[1] if len(args) > 1 else TOP
+    root = fd[1] if isinstance(fd, tuple) and fd and fd[0] == 'fdof' else None
+    I.emit('ftruncate', st, node=n, root=root, length=ln)
+    s2 = st.copy()
+    s2.note((nloc(n), 'ftruncate fails'))
+    return [(st, C(0)), (s2, C(-1))]
 
 
 def m_fclose(I, st, fr, n, this, args, an):
@@ -375,7 +441,14 @@ def m_ferror(I, st, fr, n, this, args, an):
     # "failing read" class that marks the stream); elsewhere the library calls succeed
     root = fileroot(args[0]) if args else None
     err = st.comps.get(('frem', root)) == 'err'
-    return [(st, C(1 if err else 0))]
+    w = st.comps.get(('werr', root))
+    if not err and w is None and root in getattr(I, 'written_roots', ()):
+        # a stream that has been written to: the device may have failed (disk full); the indicator is sticky
+        s2 = st.copy()
+        s2.comps[('werr', root)] = 'set'
+        s2.note((nloc(n), 'write error on the stream'))
+        return [(st, C(0)), (s2, C(1))]
+    return [(st, C(1 if err or w == 'set' else 0))]
 
 
 def m_strncpy(I, st, fr, n, this, args, an):
@@ -900,7 +973,8 @@ STD_MODELS = {
     'memcmp': m_cmp, 'strcmp': m_cmp, 'strncmp': m_cmp, 'std::memcmp': m_cmp,
     'memcpy': m_memcpy, 'memmove': m_memcpy, 'memset': m_memset, 'strlen': m_strlen,
     'std::memcpy': m_memcpy, 'std::memset': m_memset, 'std::strlen': m_strlen,
-    'open': m_open, 'fdopen': m_fdopen, 'close': m_close, 'exit': m_exit, 'std::exit': m_exit, 'abort': m_exit,
+    **_m_math(),
+    'open': m_open, 'fdopen': m_fdopen, 'close': m_close, 'fileno': m_fileno, 'ftruncate': m_ftruncate, 'ftruncate64': m_ftruncate, 'exit': m_exit, 'std::exit': m_exit, 'abort': m_exit,
     'rand': m_top, 'srand': m_void, 'time': m_top, 'atoi': m_atoi, 'std::atoi': m_atoi,
     'getopt_long': m_getopt, 'stat': m_top,
     'std::array::data': m_arr_begin, 'std::array::begin': m_arr_begin, 'std::array::cbegin': m_arr_begin,
